@@ -1665,16 +1665,15 @@ zshPrefixLoop:
 		pe.Exp = p.paramExpExp()
 	case at, star:
 		switch {
-		case p.tok == star && !pe.Excl:
-			p.curErr("not a valid parameter expansion operator: %#q", p.tok)
 		case pe.Excl && p.r == '}':
 			p.checkLang(pe.Pos(), langBashLike, "`${!foo%s}`", p.tok)
 			pe.Names = ParNamesOperator(p.tok)
 			p.next()
-		case p.tok == at:
-			p.checkLang(p.pos, langBashLike|LangMirBSDKorn, "this expansion operator")
-			fallthrough
+		case p.tok == star:
+			// only valid as the closing "${!prefix*}"
+			p.curErr("not a valid parameter expansion operator: %#q", p.tok)
 		default:
+			p.checkLang(p.pos, langBashLike|LangMirBSDKorn, "this expansion operator")
 			pe.Exp = p.paramExpExp()
 		}
 	case plus, colPlus, minus, colMinus, quest, colQuest, assgn, colAssgn,
